@@ -435,8 +435,12 @@ class RuntimeV2_x(Runtime):
         local_running_actions: List[asyncio.Task[dict]] = []
 
         if state is None or state == {}:
+            # Every conversation gets its own table of flows: flows added or removed at
+            # run time (AddFlowsAction / RemoveFlowsAction) belong to that conversation only.
             state = State(
-                flow_states={}, flow_configs=self.flow_configs, rails_config=self.config
+                flow_states={},
+                flow_configs=dict(self.flow_configs),
+                rails_config=self.config,
             )
             initialize_state(state)
         elif isinstance(state, dict):
